@@ -1713,4 +1713,58 @@ theorem Seeded.exec_fixed (src : Nat → Nat → List Nat) : ∀ (ops : List SOp
     exact ⟨h.1.trans hs.1, h.2.1.trans hs.2.1, h.2.2.1.trans hs.2.2.1, h.2.2.2.1.trans hs.2.2.2.1,
       h.2.2.2.2.trans hs.2.2.2.2⟩
 
+/-- What an operation does to the batch sampler's drop flag (audit F): only
+`batch_sampler.drop_incomplete = d` writes it. -/
+def SOp.dropOf : SOp → Bool → Bool
+  | .v (.setDrop t), _ => t
+  | _, d => d
+
+/-- The drop flag stored after a script: the last value assigned, the initial one where none was. -/
+def dropAfter (d : Bool) (script : List SOp) : Bool := script.foldl (fun d op => op.dropOf d) d
+
+theorem Seeded.step_drop (src : Nat → Nat → List Nat) (op : SOp) (z : Seeded) :
+    (Seeded.step src op z).2.view.session.loader.cfg.drop = op.dropOf z.view.session.loader.cfg.drop := by
+  cases op with
+  | setSeed s => rfl
+  | v o =>
+    cases o with
+    | io o =>
+      have h := (Session.exec_fixed (src z.seed) [o] z.view.session).1
+      exact congrArg LoaderCfg.drop h
+    | assign a b => rfl
+    | setDrop d => rfl
+
+/-- The drop flag after a script is the fold of its drop assignments - whatever else the script does
+(passes, live iterators, `len()`, look-ups, seed / presentation assignments). -/
+theorem Seeded.exec_drop (src : Nat → Nat → List Nat) : ∀ (ops : List SOp) (z : Seeded),
+    (Seeded.exec src ops z).2.view.session.loader.cfg.drop = dropAfter z.view.session.loader.cfg.drop ops := by
+  intro ops
+  induction ops with
+  | nil => intro z; rfl
+  | cons op ops ih =>
+    intro z
+    show (Seeded.exec src ops (Seeded.step src op z).2).2.view.session.loader.cfg.drop = _
+    rw [ih, Seeded.step_drop]
+    rfl
+
+/-- The presentation flags an operation of the `Seeded` language leaves behind. -/
+def SOp.presentOf : SOp → Present → Present
+  | .v o, p => o.apply p
+  | .setSeed _, p => p
+
+def presentAfterS (p : Present) (script : List SOp) : Present := script.foldl (fun p op => op.presentOf p) p
+
+theorem Seeded.exec_present (src : Nat → Nat → List Nat) : ∀ (ops : List SOp) (z : Seeded),
+    (Seeded.exec src ops z).2.view.present = presentAfterS z.view.present ops := by
+  intro ops
+  induction ops with
+  | nil => intro z; rfl
+  | cons op ops ih =>
+    intro z
+    show (Seeded.exec src ops (Seeded.step src op z).2).2.view.present = _
+    rw [ih]
+    cases op with
+    | setSeed s => rfl
+    | v o => cases o <;> rfl
+
 end PdtVerif.Batching
